@@ -25,7 +25,7 @@ from .check_client import answer_stimulus, correspond, expected_zones, rand_ac_s
 TICK = 1024
 MOMENTS = ["mid-handshake", "mid-handshake", "connect-backoff", "connecting", "after-init", "after-init", "after-init-idle",
            "link-down-with-pending", "after-heartbeat-reset", "already-shut-down",
-           "during-heartbeat-reset", "during-fault-reset"]
+           "during-heartbeat-reset", "during-fault-reset", "across-heartbeat-tick", "across-heartbeat-timeout"]
 
 
 def request_log(rig, since_ticks: int, horizon: int):
@@ -117,6 +117,16 @@ def run(ck: common.Check, tier: str) -> None:
                     rig.net.on_client_close = None
                     replay["shutdown_started_in_reset_window"] = bool(started)
                     dist[f"at{gen}_{moment}_hit"] += int(bool(started))
+                elif moment in ("across-heartbeat-tick", "across-heartbeat-timeout"):
+                    # closing the connection takes 0.6 s (the peer needs a moment); shutdown() is called 0.2 s before a
+                    # heartbeat instant (the periodic request at 300 s / the response time-out at 330 s of silence), so the
+                    # instant falls inside the tear-down
+                    if moment == "across-heartbeat-timeout":
+                        rig.console.silent_from = 0
+                        rig.advance(330 * TICK - 200)
+                    else:
+                        rig.advance(300 * TICK - 200)
+                    rig.net.close_delay_ticks = 600
                 elif moment == "already-shut-down":
                     rig.run(rig.at.shutdown(), max_ticks=20 * TICK)
                     rig.advance(rng.choice([0, TICK]))
@@ -133,6 +143,7 @@ def run(ck: common.Check, tier: str) -> None:
             rig.net.latency_ticks = 1
             rig.console.silent_from = None
             res = rig.run(rig.at.shutdown(), max_ticks=20 * TICK)
+            rig.net.close_delay_ticks = 0
             if res[0] != "ok":
                 ck.violation("shutdown() did not return normally", dict(replay, failure=str(res)))
                 continue
